@@ -149,6 +149,16 @@ theorem gen_notify :
     Dtn7.Gen.C18.sampleMultiplicity = 10 ∧
     Dtn7.Gen.C18.binarySprayBlockType = 192 := by decide
 
+/-- The remaining accesses to `bundleData`: `NotifyNewBundle` stores the fresh entry under `Lock` (one
+of two branches), `GarbageCollect` runs `cleanupMetaData` under `Lock`. No access outside the mutex. -/
+theorem gen_other_locks :
+    Dtn7.Gen.C18.notifyOpsSprayAndWait = ["lock", "write", "unlock", "lock", "write", "unlock"] ∧
+    Dtn7.Gen.C18.notifyOpsBinarySpray = ["lock", "write", "unlock", "lock", "write", "unlock"] ∧
+    Dtn7.Gen.C18.garbageCollectCallsSprayAndWait =
+      ["sw.dataMutex.Lock", "cleanupMetaData", "sw.dataMutex.Unlock"] ∧
+    Dtn7.Gen.C18.garbageCollectCallsBinarySpray =
+      ["bs.dataMutex.Lock", "cleanupMetaData", "bs.dataMutex.Unlock"] := by decide
+
 /-- `Core.forward`: direct delivery first, the algorithm only if there is no sender for the
 destination; every failed `Send` is reported; `checkPendingBundles` re-dispatches pending bundles. -/
 theorem gen_forward :
@@ -202,7 +212,7 @@ theorem spray_conservation_overlapping_runs (acts : List Action)
       (1 ≤ m.remaining → 1 ≤ m'.remaining) :=
   spray_concurrent_conserves acts (fun k hk => by
     have := h k hk
-    cases k <;> simpa [SprayAction] using this) m σ
+    cases k <;> simp_all [SprayAction]) m σ
 
 /-! ### Spray-and-wait, bundle originated here -/
 
